@@ -15,7 +15,7 @@
    (ancestor_mapper_init_ancestors, kept because tests/test_lowlevel.py::test_link_ancestors
    relies on it), C09-N1, N2, N3. *)
 From Coq Require Import List ZArith Bool.
-From TskVerif Require Import Base.Common C09.Guards C09.GuardProofs C09.MapMutations C09.SeekProofs C09.RatesProofs.
+From TskVerif Require Import Base.Common C09.Guards C09.GuardProofs C09.MapMutations C09.SeekProofs C09.RatesProofs C09.Guards2 C09.Guard2Proofs.
 Import ListNotations.
 Open Scope Z_scope.
 
@@ -243,3 +243,65 @@ Theorem map_mutations_transitions_bounded : forall K, (1 <= K)%nat ->
   (match fixed with Some a => (a < K)%nat | None => True end) ->
   (transitions_written K fixed roots <= list_sum (map samples roots))%nat.
 Proof. exact MapMutations.transitions_le_samples. Qed.
+
+(* ==== extension round: second tier of entry points (C09/Guards2.v) ==== *)
+
+(* two-locus statistics / ld_matrix(sites=...): check_sites + per-site array accesses *)
+Theorem guard_implies_in_bounds_two_locus_sites : forall n per_site rows cols,
+  zlen per_site = n -> two_locus_sites_entry true n per_site rows cols <> OOB.
+Proof. exact Guard2Proofs.guard_implies_in_bounds_two_locus_sites. Qed.
+
+(* the seeded change C09-2 (`>` in the separate check of the last list element) *)
+Theorem check_sites_last_gt_mutant_refuted :
+  exists n per_site rows cols, zlen per_site = n /\ two_locus_sites_entry false n per_site rows cols = OOB.
+Proof. exact Guard2Proofs.check_sites_last_gt_mutant_refuted. Qed.
+
+Theorem guard_implies_in_bounds_mean_descendants : forall N sets,
+  0 <= N -> mean_descendants_init N sets <> OOB.
+Proof. exact Guard2Proofs.guard_implies_in_bounds_mean_descendants. Qed.
+
+Theorem guard_implies_in_bounds_gnn : forall N per_node sets focal,
+  0 <= N -> zlen per_node = N -> gnn_init N per_node sets focal <> OOB.
+Proof. exact Guard2Proofs.guard_implies_in_bounds_gnn. Qed.
+
+(* finding C09-N5 (still in /repo): no integrity check before stored ids index per-node arrays *)
+Theorem delete_older_no_integrity_check_refuted :
+  exists N node_time ep mn, zlen node_time = N /\ delete_older_entry false N node_time ep mn = OOB.
+Proof. exact Guard2Proofs.delete_older_no_integrity_check_refuted. Qed.
+
+Theorem guard_implies_in_bounds_delete_older_repaired : forall N node_time ep mn,
+  zlen node_time = N -> delete_older_entry true N node_time ep mn <> OOB.
+Proof. exact Guard2Proofs.guard_implies_in_bounds_delete_older_repaired. Qed.
+
+Theorem ibd_run_no_integrity_check_refuted :
+  exists N node_time amap ep ec, zlen node_time = N /\ zlen amap = N /\ ibd_run_entry false N node_time amap ep ec = OOB.
+Proof. exact Guard2Proofs.ibd_run_no_integrity_check_refuted. Qed.
+
+Theorem guard_implies_in_bounds_ibd_run_repaired : forall N node_time amap ep ec,
+  zlen node_time = N -> zlen amap = N -> ibd_run_entry true N node_time amap ep ec <> OOB.
+Proof. exact Guard2Proofs.guard_implies_in_bounds_ibd_run_repaired. Qed.
+
+(* finding C09-N8 (still in /repo) *)
+Theorem count_topologies_negative_id_refuted :
+  exists N flags u i, zlen flags = N /\ u < 0 /\ count_topologies_sample_check false N flags u = Ok i.
+Proof. exact Guard2Proofs.count_topologies_negative_id_refuted. Qed.
+
+Theorem count_topologies_repaired_accepts_only_range : forall N flags u i,
+  count_topologies_sample_check true N flags u = Ok i -> 0 <= u < N /\ i = u.
+Proof. exact Guard2Proofs.count_topologies_repaired_accepts_only_range. Qed.
+
+Theorem guard_implies_in_bounds_count_topologies : forall b N flags u,
+  zlen flags = N -> count_topologies_sample_check b N flags u <> OOB.
+Proof. exact Guard2Proofs.guard_implies_in_bounds_count_topologies. Qed.
+
+(* finding C09-N9 (new, still in /repo): check_positions is NaN-blind like F4 / N4 were *)
+Theorem check_positions_nan_refuted : forall L, check_positions false L [NaN] = true.
+Proof. exact Guard2Proofs.check_positions_nan_refuted. Qed.
+
+Theorem check_positions_repaired_in_range : forall L ps,
+  check_positions true L ps = true -> Forall (fun p => exists z, p = Fin z /\ 0 <= z < L) ps.
+Proof. exact Guard2Proofs.check_positions_repaired_in_range. Qed.
+
+Theorem with_id_parse_preserves_in_bounds : forall (A : Type) checked xs (r : res A),
+  r <> OOB -> with_id_parse checked xs r <> OOB.
+Proof. exact @Guard2Proofs.with_id_parse_preserves_in_bounds. Qed.
